@@ -357,14 +357,14 @@ def gen_streams(tier):
 
 PROPS['C09'] = dict(
     family='line', tags={'G': 'gen', 'J': 'gen', 'V': 'gen'}, needs_scrut_bin=True,
-    theorems=['C09_line_round_trip', 'C09_line_not_exit_code', 'C09_generated_expectations_pass', 'C09_cram_test_reads_back', 'C09_markdown_test_reads_back', 'C09_regen_described', 'C09_regen_accepts_when_deterministic'],
+    theorems=['C09_line_round_trip', 'C09_line_not_exit_code', 'C09_generated_expectations_pass', 'C09_cram_test_reads_back', 'C09_markdown_test_reads_back', 'C09_cram_tests_read_back', 'C09_markdown_tests_read_back', 'C09_regen_described', 'C09_regen_accepts_when_deterministic'],
     streams=gen_streams,
     spec_kinds=['SPEC:C09', 'SPEC:C18'], corr_kinds=['DIFF:generated-lines', 'DIFF:generated-document'],
     case_format='G <m Markdown|c Cram> <a ascii|u unicode escaper> <0 create | 1 update with kept plain expectations | 2 update with quantified expectations> <hex shell expression> <exit code> <hex output>|<hex generated document>|<parse back: ok<n tests>/err/panic>|<1 = same shell expression>|<validate of the parsed test against the same output: ok/code/output>   J <m|c> <escaping - ascii unicode> <hex command> <exit code> <hex output> <hex title>|<hex of the document scrut create wrote>|create=<exit> test=<exit of scrut test on it> leftover=<entries left in TMPDIR>',
     rule='outputs of 0-5 lines drawn from 26 collision shapes (modifier look-alikes, [1], [256], `$ x`, `> x`, fences, empty / whitespace-only / tab lines, ANSI, NUL, invalid UTF-8, non-ASCII, backslashes, CR, ` (no-eol)`, `x (escaped)`, `---`) and random words, '
          'with and without final newline; exit codes 0,1,3,255; both formats; both escapers; one- and two-line commands; update flavours with kept expectations. '
          'The real generator output is parsed by the real parser and validated by the real TestCase::validate. cli-create-then-test: the real `scrut create` (both formats, --escaping unset / ascii / unicode, with and without --title) on a printf of the same output shapes, then the real `scrut test` on the document it wrote. Non-trivial: non-empty output; distinct by case head',
-    manifest=dict(text='Machine-checked theorems (Coq): the line written for an output line parses back (model of the expectation grammar) to an unquantified expectation that matches that very line, in both escaping modes, and is never taken for an exit-code line; the expectation list written by update for a failing test always describes the output, hence passes whenever it is deterministic for it (C03) -- with a closed counterexample showing the premise is needed (known finding). Tied to /repo end to end: generate_testcases -> MarkdownParser/CramParser::parse -> TestCase::validate on generated outputs; generated expectation lines are compared with the model. Whole test, Cram format (C09_cram_test_reads_back): the document written for a command, output lines and exit code is an element of the Cram grammar, so the Cram parser model (C07) reads it back as one test with that title, the same command lines, the written expectation lines and the exit code -- under premises that name the two listed known findings; the same for Markdown (C09_markdown_test_reads_back: the fence is one backtick longer than any run of backticks that starts a body line, so no output line can close the block; C06 reads it back as one test); the implementation\'s whole generated document is compared line for line with that rendering in both formats.',
+    manifest=dict(text='Machine-checked theorems (Coq): the line written for an output line parses back (model of the expectation grammar) to an unquantified expectation that matches that very line, in both escaping modes, and is never taken for an exit-code line; the expectation list written by update for a failing test always describes the output, hence passes whenever it is deterministic for it (C03) -- with a closed counterexample showing the premise is needed (known finding). Tied to /repo end to end: generate_testcases -> MarkdownParser/CramParser::parse -> TestCase::validate on generated outputs; generated expectation lines are compared with the model. Whole test, Cram format (C09_cram_test_reads_back): the document written for a command, output lines and exit code is an element of the Cram grammar, so the Cram parser model (C07) reads it back as one test with that title, the same command lines, the written expectation lines and the exit code -- under premises that name the two listed known findings; the same for Markdown (C09_markdown_test_reads_back: the fence is one backtick longer than any run of backticks that starts a body line, so no output line can close the block; C06 reads it back as one test); the implementation\'s whole generated document is compared line for line with that rendering in both formats. Documents of several generated tests (scrut update --convert): C09_cram_tests_read_back / C09_markdown_tests_read_back -- the tests one after the other, two blank lines between them, every Markdown header with the inline configuration that differs from the format defaults -- read back as exactly those tests in order; the real converted documents (both directions) are compared line for line with that rendering and then run by the real scrut test.',
                   technique='Coq proof composing C11 (escaping), C08 (grammar) and C02/C03 (matcher) at line level + end-to-end differential run generate -> parse -> validate',
                   note='The whole-test theorems cover the create flavour; the update flavour (kept expectations) is covered by C09_regen_* at list level and end to end.'),
     exhaustive={'quick': False, 'thorough': False},
